@@ -31,6 +31,26 @@ def _kind(ctx, expr, fi, depth=0):
                     return 'ResourceWrapper'
                 if f.cls is not None and f.name == 'process_resource' and len(f.params) > 1 and f.params[1] == nm:
                     return 'ResourceWrapper'
+                # parameter of a helper (a method / function the step was split into): what its call sites pass
+                kinds_ = set()
+                for g in ctx.repo.functions.values():
+                    if isinstance(g.node, ast.Lambda) or g is f:
+                        continue
+                    for c_ in own_nodes(g.node):
+                        if isinstance(c_, ast.Call) and any(t is f for t in res._resolve_callee(c_.func, g.module, g)):
+                            drop = 1 if (f.cls is not None and isinstance(c_.func, ast.Attribute)
+                                         and 'staticmethod' not in [u(d) for d in f.node.decorator_list]) else 0
+                            ps = f.all_params[drop:]
+                            arg_ = None
+                            if nm in ps and ps.index(nm) < len(c_.args):
+                                arg_ = c_.args[ps.index(nm)]
+                            for k_ in c_.keywords:
+                                if k_.arg == nm:
+                                    arg_ = k_.value
+                            if arg_ is not None:
+                                kinds_.add(_kind(ctx, arg_, g, depth + 1))
+                if len(kinds_) == 1:
+                    return kinds_.pop()
                 return 'unknown'
             f = f.parent if isinstance(f.parent, FuncInfo) else None
         # local / attribute assigned somewhere in the function or the class
@@ -77,9 +97,22 @@ def _kind_value(ctx, v, sc, nm, depth):
         k = _kind(ctx, v, sc, depth + 1)
         if k == 'unknown' and pseudo(v) == 'self.load_source':
             # element of the user-supplied (descriptor, iterators) pair: a descriptor iff it is subscripted with 'resources'
-            for n in own_nodes(sc.node):
-                if isinstance(n, ast.Subscript) and _const(n.slice) == 'resources' and pseudo(n.value) == nm:
-                    return 'package-descriptor'
+            places = [(sc, nm)]
+            # the element may be handed to a helper before it is used: follow it one call deep
+            for c_ in own_nodes(sc.node):
+                if isinstance(c_, ast.Call):
+                    for t in ctx.res._resolve_callee(c_.func, sc.module, sc):
+                        if isinstance(t, FuncInfo) and not isinstance(t.node, ast.Lambda):
+                            drop = 1 if (t.cls is not None and isinstance(c_.func, ast.Attribute)
+                                         and 'staticmethod' not in [u(d) for d in t.node.decorator_list]) else 0
+                            ps = t.all_params[drop:]
+                            for i_, a_ in enumerate(c_.args):
+                                if pseudo(a_) == nm and i_ < len(ps):
+                                    places.append((t, ps[i_]))
+            for f_, n_ in places:
+                for n in own_nodes(f_.node):
+                    if isinstance(n, ast.Subscript) and _const(n.slice) == 'resources' and pseudo(n.value) == n_:
+                        return 'package-descriptor'
         return k
     return 'unknown'
 
